@@ -124,9 +124,12 @@ func (b *BuildRequestURL) Build(withParams ...M) *url.URL {
 		}
 	}
 
+	// replace all vars in one pass, a param value must never be replaced again.
+	oldNew := make([]string, 0, len(varParams)*2)
 	for paramRegex, name := range varParams {
-		path = strings.NewReplacer(paramRegex, goutil.String(b.params[name])).Replace(path)
+		oldNew = append(oldNew, paramRegex, goutil.String(b.params[name]))
 	}
+	path = strings.NewReplacer(oldNew...).Replace(path)
 
 	u.Path = path
 
